@@ -193,6 +193,12 @@ Definition unmerge (t : table) (r c : Z) : res :=
       Ok (mkTable (grid t) rws2)
   end.
 
+(* Table.ensureGrid: the column edits first make sure that the grid exists and has a column for every cell of the
+   first row (a table read from a file may lack w:tblGrid); the width of a column added here is taken from the cell
+   in the code and is not modelled (0) *)
+Definition ensure_grid (g : option (list N)) (n : nat) : list N :=
+  let l := match g with Some l => l | None => [] end in l ++ repeat 0%N (n - length l).
+
 Definition step (t : table) (o : top) : res :=
   match o with
   | InsertRow pos data =>
@@ -219,8 +225,8 @@ Definition step (t : table) (o : top) : res :=
       | r0 :: _ =>
           if ((pos <? 0) || (Z.of_nat (length r0) <? pos))%Z then Err
           else if Nat.ltb (length (rows t)) (length data) then Err
-          else match grid t with
-               | None => Panic                                  (* t.Grid is nil *)
+          else match Some (ensure_grid (grid t) (length r0)) with
+               | None => Panic
                | Some g =>
                    match insert_at (Z.to_nat pos) width g with
                    | None => Panic
@@ -238,7 +244,7 @@ Definition step (t : table) (o : top) : res :=
       | r0 :: _ =>
           if negb (in_range i (length r0)) then Err
           else if Nat.leb (length r0) 1 then Err
-          else match grid t with
+          else match Some (ensure_grid (grid t) (length r0)) with
                | None => Panic
                | Some g =>
                    match delete_range (Z.to_nat i) (Z.to_nat i) g, map_opt (delete_range (Z.to_nat i) (Z.to_nat i)) (rows t) with
@@ -253,7 +259,7 @@ Definition step (t : table) (o : top) : res :=
       | r0 :: _ =>
           if ((a <? 0) || (Z.of_nat (length r0) <=? b) || (b <? a))%Z then Err
           else if (Z.of_nat (length r0) - (b - a + 1) <? 1)%Z then Err
-          else match grid t with
+          else match Some (ensure_grid (grid t) (length r0)) with
                | None => Panic
                | Some g =>
                    match delete_range (Z.to_nat a) (Z.to_nat b) g, map_opt (delete_range (Z.to_nat a) (Z.to_nat b)) (rows t) with
